@@ -73,6 +73,7 @@ func checkC17(c *Ctx) {
 	c.Explanation = "Decides the structure of the Prometheus reporter: (O1) a vector taken from the by-name timer cache is returned with a nil error only after that very variant field was tested non-nil (kind reuse yields an error, never a nil vector); (O2) in the four Allocate* functions every path on which registration failed calls onRegisterError exactly once and returns the no-op metric, the vector is used only on the err == nil edge, no path returns a nil handle, and the handle returned has the fields set that the matching Report*/bucket method reads; (O3) the four *Vec functions probe, register and insert under one exclusive lock with the same id; (O4) ReportSamples observes the bucket's upper bound once per sample (loop from 0 while i < value), duration bounds and timer values are converted to seconds (divided by float64(time.Second)) at all observation sites; (O5) the error callback table of Configuration.NewReporter: a programmatic OnError wins; \"stderr\", \"log\", \"none\" select callbacks that do not panic; anything else the panicking default."
 	c.Explanation += " Added later: (O6) the vector id is injective over (name, set of label names) for Prometheus-valid names; (O7) registerer, gatherer and error callback of a reporter are never nil and a default only fills a gap."
 	c.Explanation += " Added by round 8: (O8 own-bounds, shared with C03; O8 tags-as-derived, shared with C04) histograms are binned by their own bounds and derived scopes carry the overlay of their parent's tags and their own."
+	c.Explanation += " Added by round 9: (O4 registered-bounds) HistogramOpts.Buckets is histogramVec's own bounds parameter, which is buckets.AsValues() of the specification; (O8 placed-by-search, shared with C03) placement by one search over the histogram's own bounds."
 	c.NotDecided = []string{"gathered values", "Prometheus's own cumulative bucketing and registration rules"}
 	const pk = "prometheus"
 	fSummary, fHistogram := c.field(pk, "promTimerVec", "summary"), c.field(pk, "promTimerVec", "histogram")
